@@ -96,10 +96,22 @@ def extract(src):
     lencmp = {"<": "Clt", "<=": "Cle", "==": "Ceq", "!=": "Cne", ">=": "Cge", ">": "Cgt"}[m.group(1)] if m else "Cne"
     if not m:
         rep["anchor_missing_lencmp"] = True
+    # the two call sites of the asm loops: pointers and length must describe the common prefix
+    subc = src.code("src/biguint/subtraction.rs")
+    pats_add = [r"let\s*\(a_lo\s*,\s*a_hi\)\s*=\s*a\.split_at_mut\(b\.len\(\)\)\s*;",
+                r"schoolbook_add_assign_x86_64\(\s*a_lo\.as_mut_ptr\(\)\s*,\s*b\.as_ptr\(\)\s*,\s*b\.len\(\)\s*\)"]
+    pats_sub = [r"let\s+len\s*=\s*Ord::min\(a\.len\(\)\s*,\s*b\.len\(\)\)\s*;",
+                r"let\s*\(a_lo\s*,\s*a_hi\)\s*=\s*a\.split_at_mut\(len\)\s*;",
+                r"let\s*\(b_lo\s*,\s*b_hi\)\s*=\s*b\.split_at\(len\)\s*;",
+                r"schoolbook_sub_assign_x86_64\(\s*a_lo\.as_mut_ptr\(\)\s*,\s*b_lo\.as_ptr\(\)\s*,\s*len\s*\)"]
+    add2_body = src.fn_body("src/biguint/addition.rs", "__add2", 0) or ""
+    sub2_body = src.fn_body("src/biguint/subtraction.rs", "sub2", 0) or ""
+    callsites = all(re.search(p_, add2_body) for p_ in pats_add) and all(re.search(p_, sub2_body) for p_ in pats_sub)
+    rep["callsites_ok"] = callsites
     def lst(p):
         return "[" + ";\n    ".join(p) + "]"
-    text = "Definition addsub : addsub_params := {|\n  ap_blk := %d;\n  ap_add_prog := %s;\n  ap_sub_prog := %s;\n  ap_add_len_cmp := %s |}.\n" % (
-        blk if blk >= 0 else -1, lst(res["add"][0]), lst(res["sub"][0]), lencmp)
+    text = "Definition addsub : addsub_params := {|\n  ap_blk := %d;\n  ap_add_prog := %s;\n  ap_sub_prog := %s;\n  ap_add_len_cmp := %s;\n  ap_callsites := %s |}.\n" % (
+        blk if blk >= 0 else -1, lst(res["add"][0]), lst(res["sub"][0]), lencmp, "true" if callsites else "false")
     text = text.replace(":= -1;", ":= (-1);")
     rep["blk"] = blk
     rep["add_instrs"] = len(res["add"][0])
